@@ -23,6 +23,18 @@ def convert(raw, sid):
     else:
         for _ in range(10):
             sched += rnd + heal
+    if raw.get("staleOrphan"):
+        # somebody strips the owner references of the ControllerRevisions (delivered), then the parent is deleted -- it stays,
+        # held by a foreign finalizer -- WITHOUT the deletion being delivered: the next sync works from a stale parent
+        parent["fins"] = ["verif/hold"]
+        cfg["finalize"] = False
+        hook.pop("finalize", None)
+        sched += [{"s": "env", "op": "setowners", "res": "controllerrevisions", "name": "*", "owners": []}, {"s": "deliver"},
+                  {"s": "env", "op": "delete", "res": "parents", "name": "p"}]
+        sched += [{"s": "sync", "a": "A", "key": key}, {"s": "run", "a": "A"}, {"s": "deliver"}]
+        sched += rnd
+        return {"id": sid, "fam": "rollfin", "cfg": cfg, "objs": [parent], "hook": hook, "sched": sched,
+                "expect": {"model": {"mayAdopt": raw["mayAdopt"]}}}
     sched += [{"s": "env", "op": "delete", "res": "parents", "name": "p"}, {"s": "deliver"}]
     for _ in range(3):
         sched += rnd
